@@ -372,7 +372,9 @@ def get_odesys(
             for rxn, ratex in zip(rsys.rxns, r_exprs)
         ]
 
-    names = [s.name for s in rsys.substances.values()]
+    # the keys of ``rsys.substances`` (which ``rates`` looks concentrations up by), not
+    # ``Substance.name``: the two differ when substances are registered under other keys
+    names = list(rsys.substances.keys())
     latex_names = [
         None if s.latex_name is None else ("\\mathrm{" + s.latex_name + "}")
         for s in rsys.substances.values()
